@@ -587,7 +587,11 @@ def load(
                 p = -p
             r = bdd.find_or_add(i, p, q)
             umap[abs(u)] = r
-    bdd.roots.update(roots)
+    # the roots are node numbers in the file,
+    # map them to nodes of `bdd`
+    for u in roots:
+        r = umap[abs(u)]
+        bdd.roots.add(-r if u < 0 else r)
     return bdd
 
 
